@@ -775,18 +775,37 @@ func (c *Ctx) ruleMalformedEndsLink(rr *RuleRep) {
 		good := false
 		for in := range reach {
 			if ret, ok := in.(*ssa.Return); ok {
-				ev := c.Resolve(c.errResult(ret))
-				if ev == errV || func() bool {
+				isIt := func(ev ssa.Value) bool {
+					ev = c.Resolve(ev)
+					if ev == errV {
+						return true
+					}
 					cl, _ := c.asCall(ev)
-					return cl != nil && len(cl.Call.Args) > 0 && c.Resolve(cl.Call.Args[0]) == errV
-				}() {
+					if cl == nil || len(cl.Call.Args) == 0 {
+						return false
+					}
+					a := c.Resolve(cl.Call.Args[0])
+					if a == errV {
+						return true
+					}
+					vs, reached := valuesAlong(f, ifEdge{edges[0].B, edges[0].K}, cl, cl.Call.Args[0], nil)
+					return reached && len(vs) == 1 && c.Resolve(vs[0]) == errV
+				}
+				if isIt(c.errResult(ret)) {
 					good = true
+				} else if len(ret.Results) > 0 {
+					// the result variable joined over the arms: what it holds on the paths through this failure edge
+					if vs, reached := valuesAlong(f, ifEdge{edges[0].B, edges[0].K}, ret, ret.Results[len(ret.Results)-1], nil); reached && len(vs) == 1 && isIt(vs[0]) {
+						good = true
+					}
 				}
 			}
 		}
 		// and no way back to the loop
 		if reach[m.Read] || func() bool {
-			_, back := CanReach(f, dst.Instrs[0], func(in ssa.Instruction) bool { return in == ssa.Instruction(m.Read) }, PathQ{})
+			// (whole paths from the entry through the failure edge: what the path knows about the error is kept)
+			e := edges[0]
+			_, back := CanReach(f, nil, func(in ssa.Instruction) bool { return in == ssa.Instruction(m.Read) }, PathQ{MustEdge: &ifEdge{e.B, e.K}})
 			return back
 		}() {
 			rr.Bad(key, call.Pos(), "after %s failed serve goes on reading instead of ending the link", what)
